@@ -26,68 +26,116 @@
 (*   "keyed"   skipped while (sequence number, report) equals the last     *)
 (*             write (rejected too: two SeqChanges between two polls bring *)
 (*             the old number back with the handler's text in its file)    *)
+(*                                                                         *)
+(* The install step: when the number the loop has cached differs from the  *)
+(* current one AND the installed agent's version differs from the copy in  *)
+(* the extension, the iteration first runs `<setup tool> install`          *)
+(* (report_proxy_agent_service_status): status.code := its exit code (4 if *)
+(* it cannot be started), and the state machine is fed ONE failed          *)
+(* observation ("updated, not yet seen healthy"), whether the command       *)
+(* succeeded or not.  status.code is never reset by a health observation.  *)
+(* C20 speaks about observations only: the code of a failed install must   *)
+(* not decide the report.  CodeOverride = TRUE is the design that reports  *)
+(* 'error' while the code is non-zero (rejected: error directly after a    *)
+(* success / before the threshold, and never success again).               *)
+(*                                                                         *)
+(* The file systems: SameFs says whether the status folder is on the file  *)
+(* system of the process's temporary directory (an environment dimension:  *)
+(* /tmp is a tmpfs or a partition of its own on many images).  TempRename  *)
+(* = TRUE is the design that writes the document below the temporary       *)
+(* directory and renames it into the status folder: across file systems    *)
+(* the rename fails (EXDEV, only logged) and neither the handler's nor the *)
+(* loop's document ever reaches the folder (rejected when ~SameFs).        *)
 (***************************************************************************)
 EXTENDS Health
 
 CONSTANTS SeqNo,     \* sequence numbers (strings)
           Tags,    \* contents a healthy agent writes into its aggregate status file (a success observation)
           Fails,   \* ways the aggregate status file is not usable: missing / other version / not JSON (a failure)
-          Memo
+          Memo,
+          Codes,         \* exit codes of the install command (0 = success)
+          CodeOverride,  \* design switch, see above
+          SameFs,        \* environment: status folder and temporary directory on one file system
+          TempRename     \* design switch, see above
 
 VARIABLES cur,     \* the current sequence number (current_seq_no.txt)
           file,    \* SeqNo -> document in <seq>.status
           agg,     \* what the agent's aggregate status file holds: a tag or a failure kind
           memo,    \* [seq, doc]: the last write of the loop (used by the Memo designs only)
           rep,     \* ghost: the report of the last completed poll
-          polled   \* ghost: a poll has completed since the sequence number last changed
+          polled,  \* ghost: a poll has completed since the sequence number last changed
+          cached,  \* cache_seq_no of the loop ("none" before the first iteration)
+          mismatch,\* the installed agent's version differs from the extension's copy
+          code     \* status.code of the long-lived StatusObj
 
-lvars == <<cur, file, agg, memo, rep, polled>>
+lvars == <<cur, file, agg, memo, rep, polled, cached, mismatch, code>>
 allvars == <<vars, lvars>>
 
 Absent  == [by |-> "absent",  st |-> "none",          obs |-> "none"]
 Handler == [by |-> "handler", st |-> "transitioning", obs |-> "none"]
 LoopDoc(s, o) == [by |-> "loop", st |-> s, obs |-> o]
 
+\* does a write of a status document reach the status folder?
+Lands == ~TempRename \/ SameFs
+
 LInit == /\ Init
          /\ cur \in SeqNo
-         /\ file = [s \in SeqNo |-> IF s = cur THEN Handler ELSE Absent]   \* `enable` ran before the service started
+         /\ file = [s \in SeqNo |-> IF s = cur /\ Lands THEN Handler ELSE Absent]   \* `enable` ran before the service started
          /\ agg \in Tags \cup Fails
          /\ memo = [seq |-> "none", doc |-> Absent]
          /\ rep = Absent
          /\ polled = FALSE
+         /\ cached = "none"
+         /\ mismatch \in BOOLEAN
+         /\ code = 0
 
 \* the environment: the agent rewrites its file (new content), or the file becomes unusable
 AggChange(a) == /\ a # agg
                 /\ agg' = a
-                /\ UNCHANGED <<vars, cur, file, memo, rep, polled>>
+                /\ UNCHANGED <<vars, cur, file, memo, rep, polled, cached, mismatch, code>>
 
 \* a new goal state: the enable handler stores the number and reports 'transitioning' for it
 SeqChange(s) == /\ s # cur
                 /\ cur' = s
-                /\ file' = [file EXCEPT ![s] = Handler]
+                /\ file' = IF Lands THEN [file EXCEPT ![s] = Handler] ELSE file
                 /\ polled' = FALSE
-                /\ UNCHANGED <<vars, agg, memo, rep>>
+                /\ UNCHANGED <<vars, agg, memo, rep, cached, mismatch, code>>
 
-\* one iteration of monitor_thread (no suspension point between reading the number and writing the file)
+\* first half of an iteration that finds a new sequence number and a version mismatch: the install command
+\* (its result n is the environment's choice; a successful install may or may not end the mismatch)
+InstallPending == cached # cur /\ mismatch
+Install(n) == /\ InstallPending
+              /\ Observe(FALSE)
+              /\ code' = n
+              /\ cached' = cur
+              /\ mismatch' \in (IF n = 0 THEN BOOLEAN ELSE {TRUE})
+              /\ UNCHANGED <<cur, file, agg, memo, rep, polled>>
+
+\* (the rest of) one iteration of monitor_thread: the health observation and the write
+\* (no suspension point between reading the number and writing the file)
 Poll == LET ok == agg \in Tags IN
+        /\ ~InstallPending
         /\ Observe(ok)
-        /\ LET r == LoopDoc(st', agg)
+        /\ LET r == LoopDoc(IF CodeOverride /\ code # 0 THEN "error" ELSE st', agg)
                skip == CASE Memo = "off"     -> FALSE
                          [] Memo = "unkeyed" -> memo.doc = r
                          [] Memo = "keyed"   -> memo.doc = r /\ memo.seq = cur
-           IN /\ file' = IF skip THEN file ELSE [file EXCEPT ![cur] = r]
+           IN /\ file' = IF skip \/ ~Lands THEN file ELSE [file EXCEPT ![cur] = r]
               /\ memo' = IF skip THEN memo ELSE [seq |-> cur, doc |-> r]
-              /\ rep' = r
+              /\ rep' = LoopDoc(st', agg)       \* what C20 allows: the automaton's value for the observations so far
         /\ polled' = TRUE
-        /\ UNCHANGED <<cur, agg>>
+        /\ cached' = cur
+        /\ UNCHANGED <<cur, agg, mismatch, code>>
 
 LNext == \/ Poll
+         \/ \E n \in Codes : Install(n)
          \/ \E a \in Tags \cup Fails : AggChange(a)
          \/ \E s \in SeqNo : SeqChange(s)
 LSpec == LInit /\ [][LNext]_allvars
 
 -----------------------------------------------------------------------------
 LTypeOK == /\ cur \in SeqNo /\ agg \in Tags \cup Fails /\ polled \in BOOLEAN
+           /\ cached \in SeqNo \cup {"none"} /\ mismatch \in BOOLEAN /\ code \in Codes
            /\ \A s \in SeqNo : file[s].by \in {"absent", "handler", "loop"}
 
 \* after every completed poll the status file of the current sequence number carries the report of that poll ...
